@@ -105,11 +105,17 @@ theorem scanEscaped_escape (s rest : Bytes) (hr : rest.head? ≠ some 39) :
           rw [← h, ih]
           rfl
 
-theorem next_quoteLiteral (s rest : Bytes) (hb : StrBoundary rest) :
-    next (quoteLiteral s ++ rest) = some (some (.str s), rest) := by
+/-- quoteLiteral after the cut at the first NUL -/
+def quoteLit (s : Bytes) : Bytes :=
+  if s.contains 92 then 69 :: 39 :: (s.flatMap escapeEByte ++ [39]) else 39 :: (escapeQ 39 s ++ [39])
+
+theorem quoteLiteral_eq (s : Bytes) : quoteLiteral s = quoteLit (cstr s) := rfl
+
+theorem next0_quoteLit (s rest : Bytes) (hb : StrBoundary rest) :
+    next0 (quoteLit s ++ rest) = some (some (.str s), rest) := by
   have hr : rest.head? ≠ some 39 := by
     intro h; exact (hb 39 h).1 rfl
-  unfold quoteLiteral
+  unfold quoteLit
   by_cases hbs : s.contains 92 = true
   · -- E'…'
     rw [if_pos hbs]
@@ -119,7 +125,7 @@ theorem next_quoteLiteral (s rest : Bytes) (hb : StrBoundary rest) :
     have hspan : spanB isIdentCont (69 :: 39 :: (s.flatMap escapeEByte ++ [39] ++ rest)) =
         ([69], 39 :: (s.flatMap escapeEByte ++ [39] ++ rest)) := by
       simp [spanB, show isIdentCont 69 = true by decide, show isIdentCont 39 = false by decide]
-    simp only [List.cons_append, next, h69, hd, hi]
+    simp only [List.cons_append, next0, h69, hd, hi]
     simp only [show ((69 : UInt8) = 45) = False by decide, show ((69 : UInt8) = 47) = False by decide,
       show ((69 : UInt8) = 39) = False by decide, show ((69 : UInt8) = 34) = False by decide,
       show ((69 : UInt8) = 36) = False by decide, show ((69 : UInt8) = 46) = False by decide,
@@ -132,7 +138,7 @@ theorem next_quoteLiteral (s rest : Bytes) (hb : StrBoundary rest) :
     rw [if_neg hbs]
     have hbs' : ¬ 92 ∈ s := by simpa using hbs
     have h39 : isSpace 39 = false := by decide
-    simp only [List.cons_append, List.append_assoc, List.nil_append, next, h39]
+    simp only [List.cons_append, List.append_assoc, List.nil_append, next0, h39]
     simp only [show ((39 : UInt8) = 45) = False by decide, show ((39 : UInt8) = 47) = False by decide, false_and, if_false,
       Bool.false_eq_true, if_true]
     rw [scanQuoted_escape 39 s rest hr]
@@ -140,10 +146,10 @@ theorem next_quoteLiteral (s rest : Bytes) (hb : StrBoundary rest) :
 
 /-! ### quoted identifiers -/
 
-theorem next_quotedIdent (n rest : Bytes) (hn : n ≠ []) (hr : rest.head? ≠ some 34) :
-    next (34 :: (escapeQ 34 n ++ [34]) ++ rest) = some (some (.qident n), rest) := by
+theorem next0_quotedIdent (n rest : Bytes) (hn : n ≠ []) (hr : rest.head? ≠ some 34) :
+    next0 (34 :: (escapeQ 34 n ++ [34]) ++ rest) = some (some (.qident n), rest) := by
   have h34 : isSpace 34 = false := by decide
-  simp only [List.cons_append, List.append_assoc, List.nil_append, next, h34]
+  simp only [List.cons_append, List.append_assoc, List.nil_append, next0, h34]
   simp only [show ((34 : UInt8) = 45) = False by decide, show ((34 : UInt8) = 47) = False by decide,
     show ((34 : UInt8) = 39) = False by decide, false_and, if_false, Bool.false_eq_true, if_true]
   rw [scanQuoted_escape 34 n rest hr]
@@ -160,15 +166,15 @@ theorem identStart_facts (c : UInt8) (h : isIdentStart c = true) :
     isSpace c = false ∧ c ≠ 45 ∧ c ≠ 47 ∧ c ≠ 39 ∧ c ≠ 34 ∧ c ≠ 36 ∧ isDigit c = false ∧ c ≠ 46 ∧ isIdentCont c = true := by
   byte_omega
 
-theorem next_word (c : UInt8) (w rest : Bytes) (hc : isIdentStart c = true) (hw : ∀ d ∈ w, isIdentCont d = true)
+theorem next0_word (c : UInt8) (w rest : Bytes) (hc : isIdentStart c = true) (hw : ∀ d ∈ w, isIdentCont d = true)
     (hb : WordBoundary rest) :
-    next (c :: w ++ rest) = some (some (.word (fold (c :: w))), rest) := by
+    next0 (c :: w ++ rest) = some (some (.word (fold (c :: w))), rest) := by
   obtain ⟨h1, h2, h3, h4, h5, h6, h7, h8, h9⟩ := identStart_facts c hc
   have hspan : spanB isIdentCont (c :: w ++ rest) = (c :: w, rest) :=
     spanB_all isIdentCont (c :: w) rest (by intro d hd; cases hd with | head => exact h9 | tail _ h => exact hw d h)
       (fun d hd => (hb d hd).1)
   rw [List.cons_append] at hspan ⊢
-  simp only [next, h1, h2, h3, h4, h5, h6, h7, h8, hc, false_and, false_or, if_false, Bool.false_eq_true, if_true, hspan]
+  simp only [next0, h1, h2, h3, h4, h5, h6, h7, h8, hc, false_and, false_or, if_false, Bool.false_eq_true, if_true, hspan]
   have e1 : ¬ (rest.head? == some 39) = true := by
     intro h; have := (hb 39 (by simpa using h)).2.1; exact this rfl
   have e2 : ¬ (rest.head? == some 38) = true := by
@@ -212,12 +218,12 @@ theorem mustQuote_subset : ∀ w ∈ Spec.SqlExport.mustQuote, w ∈ reservedWor
 /-- the token `quoteIdent n` is read as -/
 def identTok (n : Bytes) : Tok := if (!isPlainIdent n || isReservedWord n) = true then .qident n else .word n
 
-theorem next_quoteIdent' (n rest : Bytes) (hn : n ≠ []) (hb : IdentBoundary rest) :
-    next (quoteIdent n ++ rest) = some (some (identTok n), rest) ∧ Spec.SqlExport.isName n (identTok n) = true := by
+theorem next0_quoteIdent' (n rest : Bytes) (hn : n ≠ []) (hb : IdentBoundary rest) :
+    next0 (quoteIdent n ++ rest) = some (some (identTok n), rest) ∧ Spec.SqlExport.isName n (identTok n) = true := by
   unfold quoteIdent identTok
   by_cases hq : (!isPlainIdent n || isReservedWord n) = true
   · rw [if_pos hq, if_pos hq]
-    refine ⟨next_quotedIdent n rest hn ?_, by simp [Spec.SqlExport.isName]⟩
+    refine ⟨next0_quotedIdent n rest hn ?_, by simp [Spec.SqlExport.isName]⟩
     intro h; exact (hb 34 h).2.2.2 rfl
   · rw [if_neg hq, if_neg hq]
     simp only [Bool.or_eq_true, Bool.not_eq_true', not_or, Bool.not_eq_false, Bool.not_eq_true] at hq
@@ -242,7 +248,7 @@ theorem next_quoteIdent' (n rest : Bytes) (hn : n ≠ []) (hb : IdentBoundary re
         | head => exact ((plain_facts c).2 (by simp [isPlainCont, hc])).2.2
         | tail _ h => exact ((plain_facts d).2 (ht d h)).2.2
       refine ⟨?_, ?_⟩
-      · have := next_word c t rest ((plain_facts c).1 hc).1 (fun d hd => ((plain_facts d).2 (ht d hd)).1)
+      · have := next0_word c t rest ((plain_facts c).1 hc).1 (fun d hd => ((plain_facts d).2 (ht d hd)).1)
           (fun d hd => ⟨(hb d hd).1, (hb d hd).2.1, (hb d hd).2.2.1⟩)
         rw [hfold] at this
         exact this
@@ -252,19 +258,19 @@ theorem next_quoteIdent' (n rest : Bytes) (hn : n ≠ []) (hb : IdentBoundary re
         have := mustQuote_subset _ hm
         simp [isReservedWord, hlow, this] at hres
 
-theorem next_quoteIdent (n rest : Bytes) (hn : n ≠ []) (hb : IdentBoundary rest) :
-    ∃ tok, next (quoteIdent n ++ rest) = some (some tok, rest) ∧ Spec.SqlExport.isName n tok = true :=
-  ⟨identTok n, next_quoteIdent' n rest hn hb⟩
+theorem next0_quoteIdent (n rest : Bytes) (hn : n ≠ []) (hb : IdentBoundary rest) :
+    ∃ tok, next0 (quoteIdent n ++ rest) = some (some tok, rest) ∧ Spec.SqlExport.isName n tok = true :=
+  ⟨identTok n, next0_quoteIdent' n rest hn hb⟩
 
 /-! ### comments -/
 
-theorem next_comment (text rest : Bytes) (ht : ∀ c ∈ text, isNewline c = false)
+theorem next0_comment (text rest : Bytes) (ht : ∀ c ∈ text, isNewline c = false)
     (hr : ∀ c, rest.head? = some c → isNewline c = true) :
-    next (45 :: 45 :: text ++ rest) = some (some (.comment text), rest) := by
+    next0 (45 :: 45 :: text ++ rest) = some (some (.comment text), rest) := by
   have h45 : isSpace 45 = false := by decide
   have hs : spanB (fun b => !isNewline b) (text ++ rest) = (text, rest) :=
     spanB_all _ text rest (fun c hc => by simp [ht c hc]) (fun c hc => by simp [hr c hc])
-  simp [next, h45, hs]
+  simp [next0, h45, hs]
 
 theorem commentText_cons (c : UInt8) (s : Bytes) : commentText (c :: s) = commentByte c ++ commentText s := by
   simp [commentText]
@@ -323,5 +329,155 @@ theorem isNameComment_ok (pre name suf : Bytes) :
       simp only [List.length_append]; omega
     rw [this, List.append_assoc, List.drop_left' rfl, List.take_left' rfl]
     exact commentDecode_commentText name
+
+/-! ### NUL: `next` is `next0` on tokens whose bytes hold no NUL -/
+
+theorem next_of_next0 (text rest : Bytes) (tok : Option Tok) (h : next0 (text ++ rest) = some (tok, rest)) (h0 : (0 : UInt8) ∉ text) :
+    next (text ++ rest) = some (tok, rest) := by
+  have ht : (text ++ rest).take ((text ++ rest).length - rest.length) = text := by
+    rw [List.length_append, Nat.add_sub_cancel, List.take_left' rfl]
+  unfold next
+  rw [h]
+  simp [h0]
+
+theorem next_none_of_next0 (bs : Bytes) (h : next0 bs = none) : next bs = none := by
+  unfold next; rw [h]
+
+/-- a step that consumed a NUL is refused, whatever `next0` made of it -/
+theorem next_nul (text rest : Bytes) (tok : Option Tok) (h : next0 (text ++ rest) = some (tok, rest)) (h0 : (0 : UInt8) ∈ text) :
+    next (text ++ rest) = none := by
+  have ht : (text ++ rest).take ((text ++ rest).length - rest.length) = text := by
+    rw [List.length_append, Nat.add_sub_cancel, List.take_left' rfl]
+  unfold next
+  rw [h]
+  simp [h0]
+
+theorem cstr_noNul (s : Bytes) : (0 : UInt8) ∉ cstr s := by
+  unfold cstr
+  induction s with
+  | nil => simp
+  | cons c s ih =>
+    by_cases hc : c = 0
+    · simp [List.takeWhile, hc]
+    · have : (c != 0) = true := by simpa using hc
+      simp only [List.takeWhile, this, List.mem_cons, not_or]
+      exact ⟨fun e => hc e.symm, ih⟩
+
+theorem cstr_of_noNul (s : Bytes) (h : (0 : UInt8) ∉ s) : cstr s = s := by
+  unfold cstr
+  induction s with
+  | nil => rfl
+  | cons c s ih =>
+    simp only [List.mem_cons, not_or] at h
+    have : (c != 0) = true := by simpa using fun e : c = 0 => h.1 e.symm
+    simp only [List.takeWhile, this]
+    rw [ih h.2]
+
+theorem flatMap_noNul (f : UInt8 → Bytes) (s : Bytes) (hs : (0 : UInt8) ∉ s) (hf : ∀ c, c ≠ 0 → (0 : UInt8) ∉ f c) :
+    (0 : UInt8) ∉ s.flatMap f := by
+  intro h
+  rw [List.mem_flatMap] at h
+  obtain ⟨c, hc, h0⟩ := h
+  exact hf c (fun e => hs (e ▸ hc)) h0
+
+theorem escapeQ_noNul (q : UInt8) (hq : q ≠ 0) (s : Bytes) (hs : (0 : UInt8) ∉ s) : (0 : UInt8) ∉ escapeQ q s := by
+  apply flatMap_noNul _ s hs
+  intro c hc h
+  unfold escapeByte at h
+  split at h
+  · simp at h; exact hq h.symm
+  · simp at h; exact hc h.symm
+
+theorem quoteLit_noNul (s : Bytes) (hs : (0 : UInt8) ∉ s) : (0 : UInt8) ∉ quoteLit s := by
+  unfold quoteLit
+  split
+  · intro h
+    simp only [List.mem_cons, List.mem_append, List.not_mem_nil, or_false] at h
+    rcases h with h | h | h | h
+    · exact absurd h (by decide)
+    · exact absurd h (by decide)
+    · revert h
+      apply flatMap_noNul _ s hs
+      intro c hc h
+      unfold escapeEByte at h
+      split at h
+      · simp at h
+      · split at h
+        · simp at h
+        · simp at h; exact hc h.symm
+    · exact absurd h (by decide)
+  · intro h
+    simp only [List.mem_cons, List.mem_append, List.not_mem_nil, or_false] at h
+    rcases h with h | h | h
+    · exact absurd h (by decide)
+    · exact escapeQ_noNul 39 (by decide) s hs h
+    · exact absurd h (by decide)
+
+theorem quoteLiteral_noNul (s : Bytes) : (0 : UInt8) ∉ quoteLiteral s := by
+  rw [quoteLiteral_eq]; exact quoteLit_noNul _ (cstr_noNul s)
+
+/-- quoteLiteral: ONE string constant whose value is the string up to its first NUL -/
+theorem next_quoteLiteral (s rest : Bytes) (hb : StrBoundary rest) :
+    next (quoteLiteral s ++ rest) = some (some (.str (cstr s)), rest) := by
+  apply next_of_next0 _ _ _ _ (quoteLiteral_noNul s)
+  rw [quoteLiteral_eq]
+  exact next0_quoteLit (cstr s) rest hb
+
+theorem quoteIdent_noNul (n : Bytes) (h0 : (0 : UInt8) ∉ n) : (0 : UInt8) ∉ quoteIdent n := by
+  unfold quoteIdent
+  split
+  · intro h
+    simp only [List.mem_cons, List.mem_append, List.not_mem_nil, or_false] at h
+    rcases h with h | h | h
+    · exact absurd h (by decide)
+    · exact escapeQ_noNul 34 (by decide) n h0 h
+    · exact absurd h (by decide)
+  · exact h0
+
+theorem next_quoteIdent' (n rest : Bytes) (hn : n ≠ []) (h0 : (0 : UInt8) ∉ n) (hb : IdentBoundary rest) :
+    next (quoteIdent n ++ rest) = some (some (identTok n), rest) ∧ Spec.SqlExport.isName n (identTok n) = true :=
+  ⟨next_of_next0 _ _ _ (next0_quoteIdent' n rest hn hb).1 (quoteIdent_noNul n h0), (next0_quoteIdent' n rest hn hb).2⟩
+
+theorem next_quoteIdent (n rest : Bytes) (hn : n ≠ []) (h0 : (0 : UInt8) ∉ n) (hb : IdentBoundary rest) :
+    ∃ tok, next (quoteIdent n ++ rest) = some (some tok, rest) ∧ Spec.SqlExport.isName n tok = true :=
+  ⟨identTok n, next_quoteIdent' n rest hn h0 hb⟩
+
+theorem commentText_noNul (s : Bytes) (hs : (0 : UInt8) ∉ s) : (0 : UInt8) ∉ commentText s := by
+  unfold commentText
+  apply flatMap_noNul _ s hs
+  intro c hc h
+  unfold commentByte at h
+  split at h
+  · simp at h
+  · split at h
+    · simp at h
+    · split at h
+      · simp at h
+      · simp at h; exact hc h.symm
+
+theorem next_comment (text rest : Bytes) (ht : ∀ c ∈ text, isNewline c = false) (h0 : (0 : UInt8) ∉ text)
+    (hr : ∀ c, rest.head? = some c → isNewline c = true) :
+    next (45 :: 45 :: text ++ rest) = some (some (.comment text), rest) := by
+  have := next0_comment text rest ht hr
+  apply next_of_next0 _ _ _ this
+  intro h
+  simp only [List.mem_cons] at h
+  rcases h with h | h | h
+  · exact absurd h (by decide)
+  · exact absurd h (by decide)
+  · exact h0 h
+
+theorem identCont_ne_zero (c : UInt8) (h : isIdentCont c = true) : c ≠ 0 := by
+  byte_omega
+
+theorem next_word (c : UInt8) (w rest : Bytes) (hc : isIdentStart c = true) (hw : ∀ d ∈ w, isIdentCont d = true)
+    (hb : WordBoundary rest) :
+    next (c :: w ++ rest) = some (some (.word (fold (c :: w))), rest) := by
+  apply next_of_next0 _ _ _ (next0_word c w rest hc hw hb)
+  intro h
+  simp only [List.mem_cons] at h
+  rcases h with h | h
+  · exact identCont_ne_zero c (identStart_facts c hc).2.2.2.2.2.2.2.2 h.symm
+  · exact identCont_ne_zero 0 (hw 0 h) rfl
 
 end PgVerif.Proofs.SqlLex
